@@ -4,6 +4,26 @@ import json, os
 ROOT = os.path.dirname(os.path.dirname(os.path.abspath(__file__)))
 
 CHECKS = {
+ "C04": dict(
+   technique="property-based implication testing: checker-accepted pairs must decode (untyped and native), plus a metamorphic chain relation (proptest)",
+   text="For generated (environment, t, t') pairs that the implementation's subtype check accepts (upgrade-step chains and independent types), generated inhabitants of t encoded by two encoders must decode at t' to a value of t'; for chains t <: t' <: t'' the direct and the two-step result must be related by opt v ~ null. Natively, every ordered pair of ~230 corpus Rust types that the checker relates is exercised with generated values. Exploration over generated pairs and values.",
+   note="Only the implication checker => decoder is judged here; the checker's own answers are C05. Four regions shared with C02/C08/C10 findings are tolerated by exact signature.",
+   ref="DESIGN.md §5 C04"),
+ "C05": dict(
+   technique="enumeration of a small type universe + property-based differential testing against a greatest-fixed-point subtype solver, with metamorphic order/name/history variants (proptest)",
+   text="The subtype check is compared with an independent greatest-fixed-point computation of the spec's rules on every ordered pair of a 150-type (thorough: 296-type) universe under single-definition recursive environments, each pair with a fresh memo and with a memo shared along the row, and on generated environments of up to 6 mutually recursive definitions including old/new interface copies with one edit; laws (reflexivity, transitivity where the spec relation has it, equality vs bisimilarity) and the text entry points with reordered/renamed definitions are checked on the same cases. Exhaustive only for the stated small universe; exploration beyond.",
+   note="Trusts the harness's reading of the subtype rules (60 lines); OptReport::Error mode is not judged; transitivity is not demanded when an outer type mentions `null` (the spec relation itself is not transitive there).",
+   ref="DESIGN.md §5 C05"),
+ "C06": dict(
+   technique="property-based robustness testing / structure-aware fuzzing of all decoder entry points with crash attribution, allocation metering and two build profiles (proptest)",
+   text="Generated hostile and mutated messages (random bytes, mutated valid messages, hostile headers with huge counts, 20 000-deep nesting, zero-sized-element bombs, over-long LEB128) are decoded at ~230 native types, generated untyped types and with no type, under quota/error-message/table-size configurations and thread stacks down to 256 KiB, in a debug-assertion and a release-like build, in worker processes so that a stack overflow or abort is attributed to its input. With a decoding quota, peak and single-request allocation on the decoding thread are bounded by explicit linear formulas. Exploration; absence of crashes is not established.",
+   note="No step-counter hook: work proportional to the quota is judged by termination and allocation (C07 adds per-value cost lower bounds); a hang becomes exit 2 (inconclusive).",
+   ref="DESIGN.md §5 C06"),
+ "C07": dict(
+   technique="property-based metamorphic testing over quota pairs around the measured cost, with cost lower/upper bounds from an independent coercion trace and cost model (proptest)",
+   text="For valid generated messages (untyped with related/unrelated expected types; native corpus types on own and foreign messages; 1e3-1e5 zero-sized elements), decoding under quota pairs around the measured cost must succeed exactly at or above the cost, return the unmetered result and report the same cost; cost is bounded below by the number of wire values (skipped ones charged to the skipping quota) and above by 16x the documented model. Exploration.",
+   note="Failures are classified by 'succeeds unmetered, fails metered', not by message text; the documented model is evaluated by the harness.",
+   ref="DESIGN.md §5 C07"),
  "C01": dict(
    technique="property-based round-trip testing over a corpus of ~230 Rust types with stateful call histories and a fresh-thread differential (proptest)",
    text="Round-trip search over a cross product of container, key, value and element types (all specialised decoding paths and their nestings, derived/generic/recursive/reference types) with generated values aimed at fast-path boundaries, through three API pairs; each case is preceded by a generated history of 0-12 type derivations, encodes, matching and mismatching decodes, multi-argument messages and abandoned builders on the same thread, and its bytes and result are compared with a fresh thread doing only the round-trip. Exploration: the type corpus is large but finite and values are sampled.",
